@@ -631,6 +631,8 @@ def intrinsic(it, name, args, kwargs):
         return json_conforms(it, args[0], args[1], '$')
     if name == 'json_text':
         return it.models_mod._json_dumps(it, args[0])
+    if name == 'line_kind':
+        return mk_int(args[0].kind())
     if name == 'bytes_seq':
         from . import ext as _ext
         from .dsl import IntElem
@@ -765,6 +767,14 @@ def seq_appended(it, new, old, x):
         conj = [mk_bool(T(new.n) == len(old.items) + 1)]
         for i, y in enumerate(old.items + [x]):
             conj.append(mk_bool(z3.Select(new.arr, i) == new.elem.unwrap(y)))
+        return b_and(*conj)
+    if isinstance(new, SList) and isinstance(old, SSeq):
+        k = len(new.items)
+        if k == 0:
+            return False
+        conj = [mk_bool(T(old.n) == k - 1), it.eq(new.items[-1], x)]
+        for i, y in enumerate(new.items[:-1]):
+            conj.append(mk_bool(z3.Select(old.arr, i) == old.elem.unwrap(y)))
         return b_and(*conj)
     raise EngineError('seq_appended')
 
